@@ -29,7 +29,7 @@ Fixpoint dop (lg : bool) (i : nat) (e : sx) {struct e} : option sx :=
   | SAt a => dop_atom lg i a
   | SAdd l =>
       if negb (has_field e) then (if is_number e then Some (sZ 0) else sdiff lg i e) else
-      option_map SAdd
+      option_map sadd
         ((fix go (l : list sx) : option (list sx) :=
             match l with
             | [] => Some []
@@ -51,19 +51,19 @@ Fixpoint dop (lg : bool) (i : nat) (e : sx) {struct e} : option sx :=
                    match dop lg i x, go r with
                    | Some dx, Some None => Some (Some (x, dx))
                    | Some dx, Some (Some (pr, dpr)) =>
-                       Some (Some (SMul [x; pr], SAdd [SMul [x; dpr]; SMul [dx; pr]]))
+                       Some (Some (SMul [x; pr], sadd [smul [x; dpr]; smul [dx; pr]]))
                    | _, _ => None
                    end
                end) l with
-      | Some (Some (_, dV)) => Some (SMul [SMul coeffs; dV])
-      | Some None => Some (SMul [SMul coeffs; sZ 0])
+      | Some (Some (_, dV)) => Some (smul [smul coeffs; dV])
+      | Some None => Some (sZ 0)
       | None => None
       end
   | SPow b x =>
       if negb (has_field e) then (if is_number e then Some (sZ 0) else sdiff lg i e) else
       match dop lg i b, dop lg i x with
       | Some db, Some dx =>
-          Some (SMul [SAdd [SMul [SFn Flog b; dx]; SMul [x; db; SPow b (sZ (-1))]]; SPow b x])
+          Some (smul [sadd [smul [SFn Flog b; dx]; smul [x; db; SPow b (sZ (-1))]]; SPow b x])
       | _, _ => None
       end
   | SFn _ _ =>
